@@ -110,6 +110,14 @@ impl<E: FieldElement, H: ElementHasher<BaseField = E::BaseField>> VerifierChanne
         let (fri_layer_queries, fri_layer_proofs) = fri_proof
             .parse_layers::<H, E>(lde_domain_size, fri_options.folding_factor())
             .map_err(|err| VerifierError::ProofDeserializationError(err.to_string()))?;
+        // the proof must carry exactly one FRI layer per folding step of the declared options
+        let num_fri_layers = fri_options.num_fri_layers(lde_domain_size);
+        if fri_layer_proofs.len() != num_fri_layers {
+            return Err(VerifierError::ProofDeserializationError(format!(
+                "expected {num_fri_layers} FRI layers, but the proof contains {}",
+                fri_layer_proofs.len()
+            )));
+        }
 
         // --- parse out-of-domain evaluation frame -----------------------------------------------
         let (ood_trace_frame, ood_constraint_evaluations) = ood_frame
